@@ -1,12 +1,1960 @@
-//! C11 — monitor not built yet (stub so that the registry is complete).
+//! C11 — lifting P-Code to the IR preserves behaviour.
+//!
+//! Differential execution: random well-sized P-Code blocks are executed by `pcx` (a reference
+//! interpreter for raw P-Code written here from the P-Code reference manual, arithmetic by `pref`)
+//! and, after `pcode::Project::normalize()` + `into_ir_project()`, by the IR interpreter `irx`
+//! from the same random initial states. The module also hosts the P-Code generators used by C12.
+
 use crate::core::*;
+use crate::irx::{Ev, Machine, State, Stop};
+use crate::pref::{self, V};
+use crate::prng::{hash_str, mix, Rng};
+use cwe_checker_lib::intermediate_representation as ir;
+use cwe_checker_lib::intermediate_representation::{BinOpType, CastOpType, UnOpType};
+use cwe_checker_lib::pcode;
+use serde::{Deserialize, Serialize};
+use serde_json::{json, Value};
+use std::collections::{BTreeMap, BTreeSet};
 
 pub fn info() -> CheckInfo {
     CheckInfo {
         id: "C11",
-        rule: "(monitor not built yet)",
-        assumptions: &[],
-        run: |_cfg| Report::new(),
-        replay: |_cfg, _case| Report::new(),
+        rule: "random well-sized P-Code blocks (1-12 ops + 0-2 jumps; every integer mnemonic; operands = registers of a table with nested sub-registers RAX>EAX>AX>{AL,AH}, a 16-byte register with low/middle/high windows, same-name smaller registers, 1-byte flags, stack pointer; temporaries; constants; RAM operands as inputs and outputs; cast-to-base idioms and decoys; jumps of all seven mnemonics) plus a systematic sweep over every (output operand x input operand) and every (sub-register x cast x cast target) pair; each block is lifted by pcode::Project::normalize + into_ir_project and executed by irx from 8/64 random initial states next to the reference P-Code interpreter pcx. Compared: final bytes of all base registers, per instruction the loads (multiset of address,size,value) and stores (sequence), branch decision and target, indirect target value, call/return; statically: no IR access to a variable that is neither a base register nor a block-local temporary defined earlier. non-trivial = the block has a sub-register or RAM operand and at least one state ran to the end in both interpreters; distinct = hash of the block",
+        assumptions: &[
+            "pcx/pref/irx are a correct reading of the P-Code reference and of the IR semantics; little endian memory",
+            "only well-sized P-Code is generated (sizes as demanded by the P-Code reference; SUBPIECE offset+size within the input; extensions strictly widen; LOAD/STORE addresses pointer-sized)",
+            "RAM varnodes appear as inputs/outputs of ordinary ops, as LOAD address/STORE address/value and as BRANCHIND/CALLIND targets; never as output of LOAD, as CBRANCH condition or RETURN target (the lifter has no translation for those; not observed from the extractor)",
+            "a temporary is read only with the size of its latest definition in the block (no overlapping unique accesses); float operations are not generated (no reference semantics)",
+            "states in which the reference hits undefined behaviour (division by zero, multiplication wider than 8 bytes) are skipped",
+        ],
+        run,
+        replay,
     }
+}
+
+// ---------------------------------------------------------------------------
+// JSON shapes of the extractor output (own types; the crate's types are only reached through serde)
+
+#[derive(Clone, Debug, PartialEq, Eq, Serialize, Deserialize)]
+pub struct PVar {
+    #[serde(default)]
+    pub name: Option<String>,
+    #[serde(default)]
+    pub value: Option<String>,
+    #[serde(default)]
+    pub address: Option<String>,
+    pub size: u64,
+    pub is_virtual: bool,
+}
+
+#[derive(Clone, Debug, PartialEq, Eq, Serialize, Deserialize)]
+pub struct PExpr {
+    pub mnemonic: String,
+    #[serde(default)]
+    pub input0: Option<PVar>,
+    #[serde(default)]
+    pub input1: Option<PVar>,
+    #[serde(default)]
+    pub input2: Option<PVar>,
+}
+
+#[derive(Clone, Debug, PartialEq, Eq, Serialize, Deserialize)]
+pub struct PDef {
+    #[serde(default)]
+    pub lhs: Option<PVar>,
+    pub rhs: PExpr,
+}
+
+#[derive(Clone, Debug, PartialEq, Eq, Serialize, Deserialize)]
+pub struct PTid {
+    pub id: String,
+    pub address: String,
+}
+
+#[derive(Clone, Debug, PartialEq, Eq, Serialize, Deserialize)]
+pub struct PTerm<T> {
+    pub tid: PTid,
+    pub term: T,
+}
+
+#[derive(Clone, Debug, PartialEq, Eq, Serialize, Deserialize)]
+pub enum PLabel {
+    Direct(PTid),
+    Indirect(PVar),
+}
+
+#[derive(Clone, Debug, PartialEq, Eq, Serialize, Deserialize)]
+pub struct PCall {
+    #[serde(default)]
+    pub target: Option<PLabel>,
+    #[serde(rename = "return", default)]
+    pub return_: Option<PLabel>,
+    #[serde(default)]
+    pub call_string: Option<String>,
+}
+
+#[derive(Clone, Debug, PartialEq, Eq, Serialize, Deserialize)]
+pub struct PJmp {
+    pub mnemonic: String,
+    #[serde(default)]
+    pub goto: Option<PLabel>,
+    #[serde(default)]
+    pub call: Option<PCall>,
+    #[serde(default)]
+    pub condition: Option<PVar>,
+    #[serde(default)]
+    pub target_hints: Option<Vec<String>>,
+}
+
+#[derive(Clone, Debug, PartialEq, Eq, Serialize, Deserialize)]
+pub struct PBlk {
+    pub defs: Vec<PTerm<PDef>>,
+    pub jmps: Vec<PTerm<PJmp>>,
+}
+
+#[derive(Clone, Debug, PartialEq, Eq, Serialize, Deserialize)]
+pub struct PSub {
+    pub name: String,
+    pub blocks: Vec<PTerm<PBlk>>,
+    #[serde(default)]
+    pub calling_convention: Option<String>,
+}
+
+#[derive(Clone, Debug, PartialEq, Eq, Serialize, Deserialize)]
+pub struct PReg {
+    pub register: String,
+    pub base_register: String,
+    pub lsb: u64,
+    pub size: u64,
+}
+
+#[derive(Clone, Debug, PartialEq, Eq, Serialize, Deserialize)]
+pub struct PArg {
+    #[serde(default)]
+    pub var: Option<PVar>,
+    #[serde(default)]
+    pub location: Option<PExpr>,
+    pub intent: String,
+}
+
+#[derive(Clone, Debug, PartialEq, Eq, Serialize, Deserialize)]
+pub struct PExtern {
+    pub tid: PTid,
+    pub addresses: Vec<String>,
+    pub name: String,
+    #[serde(default)]
+    pub calling_convention: Option<String>,
+    pub arguments: Vec<PArg>,
+    pub no_return: bool,
+    pub has_var_args: bool,
+}
+
+#[derive(Clone, Debug, PartialEq, Eq, Serialize, Deserialize)]
+pub struct PProgram {
+    pub subs: Vec<PTerm<PSub>>,
+    pub extern_symbols: Vec<PExtern>,
+    pub entry_points: Vec<PTid>,
+    pub image_base: String,
+}
+
+#[derive(Clone, Debug, PartialEq, Eq, Serialize, Deserialize)]
+pub struct PCconv {
+    pub calling_convention: String,
+    pub integer_parameter_register: Vec<String>,
+    pub float_parameter_register: Vec<String>,
+    pub return_register: Vec<String>,
+    pub float_return_register: Vec<String>,
+    pub unaffected_register: Vec<String>,
+    pub killed_by_call_register: Vec<String>,
+}
+
+#[derive(Clone, Debug, PartialEq, Serialize, Deserialize)]
+pub struct PProject {
+    pub program: PTerm<PProgram>,
+    pub cpu_architecture: String,
+    pub stack_pointer_register: PVar,
+    pub register_properties: Vec<PReg>,
+    pub register_calling_convention: Vec<PCconv>,
+    pub datatype_properties: Value,
+}
+
+pub const PTR: u64 = 8;
+
+pub fn v_reg(name: &str, size: u64) -> PVar {
+    PVar { name: Some(name.to_string()), value: None, address: None, size, is_virtual: false }
+}
+pub fn v_tmp(name: &str, size: u64) -> PVar {
+    PVar { name: Some(name.to_string()), value: None, address: None, size, is_virtual: true }
+}
+pub fn v_const(val: u128, size: u64, padded: bool) -> PVar {
+    let val = val & pref::mask(size.min(16) as u32);
+    let s = if padded { format!("{:0width$x}", val, width = (2 * size.min(8)) as usize) } else { format!("{val:x}") };
+    PVar { name: None, value: Some(s), address: None, size, is_virtual: false }
+}
+pub fn v_ram(addr: u64, size: u64) -> PVar {
+    PVar { name: None, value: None, address: Some(format!("{addr:08x}")), size, is_virtual: false }
+}
+pub fn ptid(id: &str, address: &str) -> PTid {
+    PTid { id: id.to_string(), address: address.to_string() }
+}
+
+pub fn show_var(v: &PVar) -> String {
+    if let Some(n) = &v.name {
+        format!("{n}:{}", v.size)
+    } else if let Some(c) = &v.value {
+        format!("0x{c}:{}", v.size)
+    } else if let Some(a) = &v.address {
+        format!("ram[0x{a}]:{}", v.size)
+    } else {
+        format!("?:{}", v.size)
+    }
+}
+
+pub fn show_def(d: &PDef) -> String {
+    let ins: Vec<String> = [&d.rhs.input0, &d.rhs.input1, &d.rhs.input2].iter().filter_map(|o| o.as_ref().map(show_var)).collect();
+    match &d.lhs {
+        Some(l) => format!("{} = {} {}", show_var(l), d.rhs.mnemonic, ins.join(", ")),
+        None => format!("{} {}", d.rhs.mnemonic, ins.join(", ")),
+    }
+}
+
+pub fn show_label(l: &Option<PLabel>) -> String {
+    match l {
+        None => "-".to_string(),
+        Some(PLabel::Direct(t)) => t.id.clone(),
+        Some(PLabel::Indirect(v)) => format!("[{}]", show_var(v)),
+    }
+}
+
+pub fn show_jmp(j: &PJmp) -> String {
+    let mut s = j.mnemonic.clone();
+    if let Some(c) = &j.condition {
+        s += &format!(" if {}", show_var(c));
+    }
+    if j.goto.is_some() {
+        s += &format!(" goto {}", show_label(&j.goto));
+    }
+    if let Some(c) = &j.call {
+        s += &format!(" target {} return {} desc {:?}", show_label(&c.target), show_label(&c.return_), c.call_string);
+    }
+    if let Some(h) = &j.target_hints {
+        s += &format!(" hints {h:?}");
+    }
+    s
+}
+
+pub fn show_blk(b: &PTerm<PBlk>) -> String {
+    let mut out = format!("  PBLK [{}]\n", b.tid.id);
+    for d in &b.term.defs {
+        out += &format!("    [{}] {}\n", d.tid.id, show_def(&d.term));
+    }
+    for j in &b.term.jmps {
+        out += &format!("    [{}] {}\n", j.tid.id, show_jmp(&j.term));
+    }
+    out
+}
+
+// ---------------------------------------------------------------------------
+// Register table
+
+pub fn reg_table() -> Vec<PReg> {
+    let mut t: Vec<PReg> = Vec::new();
+    let mut add = |r: &str, b: &str, lsb: u64, size: u64| t.push(PReg { register: r.to_string(), base_register: b.to_string(), lsb, size });
+    for (q, d, w, l, h) in [("RAX", "EAX", "AX", "AL", "AH"), ("RBX", "EBX", "BX", "BL", "BH"), ("RDX", "EDX", "DX", "DL", "DH")] {
+        add(q, q, 0, 8);
+        add(d, q, 0, 4);
+        add(w, q, 0, 2);
+        add(l, q, 0, 1);
+        add(h, q, 1, 1);
+    }
+    for (q, d) in [("RCX", "ECX"), ("RSI", "ESI"), ("RDI", "EDI"), ("RBP", "EBP")] {
+        add(q, q, 0, 8);
+        add(d, q, 0, 4);
+    }
+    add("RSP", "RSP", 0, 8);
+    add("ESP", "RSP", 0, 4);
+    add("SP", "RSP", 0, 2);
+    for f in ["ZF", "CF", "SF", "OF"] {
+        add(f, f, 0, 1);
+    }
+    add("XMM0", "XMM0", 0, 16);
+    add("XMM0_Qa", "XMM0", 0, 8);
+    add("XMM0_Qb", "XMM0", 8, 8);
+    add("XMM0_Da", "XMM0", 0, 4);
+    add("XMM0_Db", "XMM0", 4, 4);
+    add("XMM0_Dc", "XMM0", 8, 4);
+    add("XMM0_Dd", "XMM0", 12, 4);
+    t
+}
+
+/// Same-name smaller varnodes (a register name used with a size below the register's size; the
+/// extractor names a varnode after the smallest register containing it).
+pub const SAME_NAME_SMALLER: &[(&str, u64)] = &[("RCX", 2), ("RCX", 1), ("ECX", 2), ("ECX", 1), ("RSI", 2), ("XMM0_Db", 2), ("XMM0_Qb", 2)];
+
+#[derive(Clone, Debug)]
+pub struct RegOp {
+    pub name: String,
+    pub size: u64,
+    pub base: String,
+    pub lsb: u64,
+    pub base_size: u64,
+    pub class: &'static str,
+}
+
+impl RegOp {
+    pub fn var(&self) -> PVar {
+        v_reg(&self.name, self.size)
+    }
+    pub fn is_base(&self) -> bool {
+        self.class == "base" || self.class == "flag"
+    }
+}
+
+pub fn reg_operands(table: &[PReg]) -> Vec<RegOp> {
+    let size_of = |n: &str| table.iter().find(|r| r.register == n).map(|r| r.size).unwrap();
+    let mut out = Vec::new();
+    let mut push = |r: &PReg, size: u64| {
+        let base_size = size_of(&r.base_register);
+        let class = if size < r.size {
+            "ssn"
+        } else if r.register == r.base_register {
+            if r.size == 1 {
+                "flag"
+            } else {
+                "base"
+            }
+        } else if r.lsb == 0 {
+            "sublow"
+        } else if r.lsb + r.size == base_size {
+            "subhigh"
+        } else {
+            "submid"
+        };
+        out.push(RegOp { name: r.register.clone(), size, base: r.base_register.clone(), lsb: r.lsb, base_size, class });
+    };
+    for r in table {
+        push(r, r.size);
+    }
+    for (n, s) in SAME_NAME_SMALLER {
+        let r = table.iter().find(|r| r.register == *n).unwrap();
+        push(r, *s);
+    }
+    out
+}
+
+pub fn cconv_stdcall() -> PCconv {
+    let v = |l: &[&str]| l.iter().map(|s| s.to_string()).collect::<Vec<_>>();
+    PCconv {
+        calling_convention: "__stdcall".to_string(),
+        integer_parameter_register: v(&["RDI", "RSI", "RDX", "RCX"]),
+        float_parameter_register: v(&["XMM0_Qa"]),
+        return_register: v(&["RAX", "RDX"]),
+        float_return_register: v(&["XMM0_Qa"]),
+        unaffected_register: v(&["RBX", "RBP", "RSP", "EBX"]),
+        killed_by_call_register: v(&["RAX", "RCX", "RDX", "RSI", "RDI"]),
+    }
+}
+
+pub fn empty_project(subs: Vec<PTerm<PSub>>, externs: Vec<PExtern>, entry_points: Vec<PTid>) -> PProject {
+    PProject {
+        program: PTerm { tid: ptid("prog_00001000", "00001000"), term: PProgram { subs, extern_symbols: externs, entry_points, image_base: "1000".to_string() } },
+        cpu_architecture: "x86_64".to_string(),
+        stack_pointer_register: v_reg("RSP", 8),
+        register_properties: reg_table(),
+        register_calling_convention: vec![cconv_stdcall()],
+        datatype_properties: json!({"char_size":1,"double_size":8,"float_size":4,"integer_size":4,"long_double_size":16,"long_long_size":8,"long_size":8,"pointer_size":8,"short_size":2}),
+    }
+}
+
+// ---------------------------------------------------------------------------
+// pcx — reference interpreter for raw P-Code blocks
+
+#[derive(Clone, Copy, Debug, PartialEq, Eq)]
+pub enum OpKind {
+    Copy,
+    Load,
+    Store,
+    Bin(BinOpType),
+    Un(UnOpType),
+    Cast(CastOpType),
+    Subpiece,
+}
+
+/// Mnemonic table written from the P-Code reference manual.
+pub fn op_kind(m: &str) -> Option<OpKind> {
+    use OpKind::*;
+    Some(match m {
+        "COPY" => Copy,
+        "LOAD" => Load,
+        "STORE" => Store,
+        "PIECE" => Bin(BinOpType::Piece),
+        "SUBPIECE" => Subpiece,
+        "POPCOUNT" => Cast(CastOpType::PopCount),
+        "LZCOUNT" => Cast(CastOpType::LzCount),
+        "INT_EQUAL" => Bin(BinOpType::IntEqual),
+        "INT_NOTEQUAL" => Bin(BinOpType::IntNotEqual),
+        "INT_LESS" => Bin(BinOpType::IntLess),
+        "INT_SLESS" => Bin(BinOpType::IntSLess),
+        "INT_LESSEQUAL" => Bin(BinOpType::IntLessEqual),
+        "INT_SLESSEQUAL" => Bin(BinOpType::IntSLessEqual),
+        "INT_ADD" => Bin(BinOpType::IntAdd),
+        "INT_SUB" => Bin(BinOpType::IntSub),
+        "INT_CARRY" => Bin(BinOpType::IntCarry),
+        "INT_SCARRY" => Bin(BinOpType::IntSCarry),
+        "INT_SBORROW" => Bin(BinOpType::IntSBorrow),
+        "INT_XOR" => Bin(BinOpType::IntXOr),
+        "INT_AND" => Bin(BinOpType::IntAnd),
+        "INT_OR" => Bin(BinOpType::IntOr),
+        "INT_LEFT" => Bin(BinOpType::IntLeft),
+        "INT_RIGHT" => Bin(BinOpType::IntRight),
+        "INT_SRIGHT" => Bin(BinOpType::IntSRight),
+        "INT_MULT" => Bin(BinOpType::IntMult),
+        "INT_DIV" => Bin(BinOpType::IntDiv),
+        "INT_REM" => Bin(BinOpType::IntRem),
+        "INT_SDIV" => Bin(BinOpType::IntSDiv),
+        "INT_SREM" => Bin(BinOpType::IntSRem),
+        "BOOL_XOR" => Bin(BinOpType::BoolXOr),
+        "BOOL_AND" => Bin(BinOpType::BoolAnd),
+        "BOOL_OR" => Bin(BinOpType::BoolOr),
+        "FLOAT_EQUAL" => Bin(BinOpType::FloatEqual),
+        "FLOAT_NOTEQUAL" => Bin(BinOpType::FloatNotEqual),
+        "FLOAT_LESS" => Bin(BinOpType::FloatLess),
+        "FLOAT_LESSEQUAL" => Bin(BinOpType::FloatLessEqual),
+        "FLOAT_ADD" => Bin(BinOpType::FloatAdd),
+        "FLOAT_SUB" => Bin(BinOpType::FloatSub),
+        "FLOAT_MULT" => Bin(BinOpType::FloatMult),
+        "FLOAT_DIV" => Bin(BinOpType::FloatDiv),
+        "INT_NEGATE" => Un(UnOpType::IntNegate),
+        "INT_2COMP" => Un(UnOpType::Int2Comp),
+        "BOOL_NEGATE" => Un(UnOpType::BoolNegate),
+        "FLOAT_NEG" => Un(UnOpType::FloatNegate),
+        "FLOAT_ABS" => Un(UnOpType::FloatAbs),
+        "FLOAT_SQRT" => Un(UnOpType::FloatSqrt),
+        "FLOAT_CEIL" | "CEIL" => Un(UnOpType::FloatCeil),
+        "FLOAT_FLOOR" | "FLOOR" => Un(UnOpType::FloatFloor),
+        "FLOAT_ROUND" | "ROUND" => Un(UnOpType::FloatRound),
+        "FLOAT_NAN" => Un(UnOpType::FloatNaN),
+        "INT_ZEXT" => Cast(CastOpType::IntZExt),
+        "INT_SEXT" => Cast(CastOpType::IntSExt),
+        "INT2FLOAT" => Cast(CastOpType::Int2Float),
+        "FLOAT2FLOAT" => Cast(CastOpType::Float2Float),
+        "TRUNC" => Cast(CastOpType::Trunc),
+        _ => return None,
+    })
+}
+
+/// Memory events of one instruction (all ops sharing one instruction address).
+#[derive(Clone, Debug, PartialEq, Eq)]
+pub struct Group {
+    pub addr: String,
+    pub loads: Vec<(u64, u32, u128)>,
+    pub stores: Vec<(u64, u32, u128)>,
+}
+
+#[derive(Clone, Debug, PartialEq, Eq)]
+pub enum Outcome {
+    NoJump,
+    CondFallOff,
+    Goto { decision: Option<bool>, target: String },
+    Ind { value: V },
+    Call { target: String, ret: Option<String> },
+    CallInd { value: V, ret: Option<String> },
+    CallOther { desc: String, ret: Option<String> },
+    Return { value: V },
+}
+
+pub enum PStop {
+    /// the block has no defined value here (division by zero, unsupported operation)
+    Undefined(String),
+    /// the block is not well-formed P-Code: a defect of the generator, never a verdict
+    Malformed(String),
+}
+
+pub struct Pcx<'a> {
+    pub table: &'a BTreeMap<String, PReg>,
+    pub machine: &'a Machine,
+    /// one little-endian byte array per base register
+    pub regs: BTreeMap<String, Vec<u8>>,
+    pub temps: BTreeMap<String, V>,
+    pub mem: BTreeMap<u64, u8>,
+}
+
+fn push_group(groups: &mut Vec<Group>, addr: &str, loads: Vec<(u64, u32, u128)>, stores: Vec<(u64, u32, u128)>) {
+    if loads.is_empty() && stores.is_empty() {
+        return;
+    }
+    match groups.last_mut() {
+        Some(g) if g.addr == addr => {
+            g.loads.extend(loads);
+            g.stores.extend(stores);
+        }
+        _ => groups.push(Group { addr: addr.to_string(), loads, stores }),
+    }
+}
+
+fn parse_hex(s: &str) -> Result<u128, PStop> {
+    u128::from_str_radix(s.trim_start_matches("0x"), 16).map_err(|_| PStop::Malformed(format!("bad hex {s}")))
+}
+
+impl<'a> Pcx<'a> {
+    fn mem_load(&self, addr: u64, size: u32) -> u128 {
+        let mut val = 0u128;
+        for i in 0..size as u64 {
+            let a = addr.wrapping_add(i);
+            let b = self.mem.get(&a).copied().unwrap_or_else(|| self.machine.initial_byte(a)) as u128;
+            val |= b << (8 * i);
+        }
+        val
+    }
+    fn mem_store(&mut self, addr: u64, size: u32, val: u128) {
+        for i in 0..size as u64 {
+            self.mem.insert(addr.wrapping_add(i), ((val >> (8 * i)) & 0xff) as u8);
+        }
+    }
+    fn window(&self, name: &str, size: u64) -> Result<(String, usize, usize), PStop> {
+        let r = self.table.get(name).ok_or_else(|| PStop::Malformed(format!("unknown register {name}")))?;
+        if size > r.size || size == 0 {
+            return Err(PStop::Malformed(format!("register {name} used with size {size}")));
+        }
+        Ok((r.base_register.clone(), r.lsb as usize, size as usize))
+    }
+    pub fn read(&self, v: &PVar, loads: &mut Vec<(u64, u32, u128)>) -> Result<V, PStop> {
+        let w = v.size as u32;
+        if !(1..=16).contains(&w) {
+            return Err(PStop::Malformed(format!("varnode size {w}")));
+        }
+        if let Some(name) = &v.name {
+            if v.is_virtual {
+                match self.temps.get(name) {
+                    Some(val) if val.w == w => Ok(*val),
+                    Some(val) => Err(PStop::Malformed(format!("temporary {name} read with size {w}, defined with {}", val.w))),
+                    None => Err(PStop::Malformed(format!("temporary {name} read before definition"))),
+                }
+            } else {
+                let (base, lsb, size) = self.window(name, v.size)?;
+                let bytes = &self.regs[&base];
+                let mut val = 0u128;
+                for i in 0..size {
+                    val |= (bytes[lsb + i] as u128) << (8 * i);
+                }
+                Ok(V::new(val, w))
+            }
+        } else if let Some(c) = &v.value {
+            Ok(V::new(parse_hex(c)?, w))
+        } else if let Some(a) = &v.address {
+            let addr = parse_hex(a)? as u64;
+            let val = self.mem_load(addr, w);
+            loads.push((addr, w, val));
+            Ok(V::new(val, w))
+        } else {
+            Err(PStop::Malformed("empty varnode".into()))
+        }
+    }
+    pub fn write(&mut self, v: &PVar, val: V, stores: &mut Vec<(u64, u32, u128)>) -> Result<(), PStop> {
+        if val.w as u64 != v.size {
+            return Err(PStop::Malformed(format!("value of {} bytes written to {}", val.w, show_var(v))));
+        }
+        if let Some(name) = &v.name {
+            if v.is_virtual {
+                self.temps.insert(name.clone(), val);
+            } else {
+                let (base, lsb, size) = self.window(name, v.size)?;
+                let bytes = self.regs.get_mut(&base).unwrap();
+                for i in 0..size {
+                    bytes[lsb + i] = ((val.v >> (8 * i)) & 0xff) as u8;
+                }
+            }
+            Ok(())
+        } else if let Some(a) = &v.address {
+            let addr = parse_hex(a)? as u64;
+            self.mem_store(addr, val.w, val.v);
+            stores.push((addr, val.w, val.v));
+            Ok(())
+        } else {
+            Err(PStop::Malformed("write to a constant".into()))
+        }
+    }
+
+    pub fn exec_def(&mut self, d: &PDef, loads: &mut Vec<(u64, u32, u128)>, stores: &mut Vec<(u64, u32, u128)>) -> Result<(), PStop> {
+        let kind = op_kind(&d.rhs.mnemonic).ok_or_else(|| PStop::Malformed(format!("mnemonic {}", d.rhs.mnemonic)))?;
+        let in0 = d.rhs.input0.as_ref();
+        let in1 = d.rhs.input1.as_ref();
+        let in2 = d.rhs.input2.as_ref();
+        let miss = || PStop::Malformed(format!("missing operand in {}", show_def(d)));
+        let result: V = match kind {
+            OpKind::Store => {
+                let a = self.read(in1.ok_or_else(miss)?, loads)?;
+                let v = self.read(in2.ok_or_else(miss)?, loads)?;
+                let addr = a.v as u64;
+                self.mem_store(addr, v.w, v.v);
+                stores.push((addr, v.w, v.v));
+                return Ok(());
+            }
+            OpKind::Load => {
+                let a = self.read(in1.ok_or_else(miss)?, loads)?;
+                let out = d.lhs.as_ref().ok_or_else(miss)?;
+                let addr = a.v as u64;
+                let val = self.mem_load(addr, out.size as u32);
+                loads.push((addr, out.size as u32, val));
+                V::new(val, out.size as u32)
+            }
+            OpKind::Copy => self.read(in0.ok_or_else(miss)?, loads)?,
+            OpKind::Bin(op) => {
+                let a = self.read(in0.ok_or_else(miss)?, loads)?;
+                let b = self.read(in1.ok_or_else(miss)?, loads)?;
+                let same = !matches!(op, BinOpType::Piece | BinOpType::IntLeft | BinOpType::IntRight | BinOpType::IntSRight);
+                if same && a.w != b.w {
+                    return Err(PStop::Malformed(format!("operand sizes differ in {}", show_def(d))));
+                }
+                pref::bin(op, a, b).ok_or_else(|| PStop::Undefined(format!("{op:?} on {a:?},{b:?}")))?
+            }
+            OpKind::Un(op) => {
+                let a = self.read(in0.ok_or_else(miss)?, loads)?;
+                pref::un(op, a).ok_or_else(|| PStop::Undefined(format!("{op:?}")))?
+            }
+            OpKind::Cast(op) => {
+                let a = self.read(in0.ok_or_else(miss)?, loads)?;
+                let out = d.lhs.as_ref().ok_or_else(miss)?;
+                if matches!(op, CastOpType::IntZExt | CastOpType::IntSExt) && out.size as u32 <= a.w {
+                    return Err(PStop::Malformed(format!("extension does not widen in {}", show_def(d))));
+                }
+                pref::cast(op, out.size as u32, a).ok_or_else(|| PStop::Undefined(format!("{op:?}")))?
+            }
+            OpKind::Subpiece => {
+                let a = self.read(in0.ok_or_else(miss)?, loads)?;
+                let low = self.read(in1.ok_or_else(miss)?, loads)?.v as u32;
+                let out = d.lhs.as_ref().ok_or_else(miss)?;
+                if low + out.size as u32 > a.w {
+                    return Err(PStop::Malformed(format!("subpiece out of range in {}", show_def(d))));
+                }
+                pref::subpiece(low, out.size as u32, a)
+            }
+        };
+        let out = d.lhs.as_ref().ok_or_else(miss)?;
+        self.write(out, result, stores)
+    }
+
+    /// Execute a block: memory events per instruction and the outcome of the jumps.
+    pub fn run_block(&mut self, blk: &PBlk) -> Result<(Vec<Group>, Outcome), PStop> {
+        let mut groups = Vec::new();
+        for d in &blk.defs {
+            let (mut l, mut s) = (Vec::new(), Vec::new());
+            self.exec_def(&d.term, &mut l, &mut s)?;
+            push_group(&mut groups, &d.tid.address, l, s);
+        }
+        let direct = |l: &Option<PLabel>| -> Result<String, PStop> {
+            match l {
+                Some(PLabel::Direct(t)) => Ok(format!("{}@{}", t.id, t.address)),
+                _ => Err(PStop::Malformed("direct label expected".into())),
+            }
+        };
+        let opt_direct = |l: &Option<PLabel>| -> Result<Option<String>, PStop> {
+            match l {
+                None => Ok(None),
+                Some(PLabel::Direct(t)) => Ok(Some(format!("{}@{}", t.id, t.address))),
+                _ => Err(PStop::Malformed("direct label expected".into())),
+            }
+        };
+        let mut pending: Option<bool> = None;
+        for j in &blk.jmps {
+            let mut l = Vec::new();
+            let jm = &j.term;
+            let indirect = |me: &Self, lab: &Option<PLabel>, l: &mut Vec<(u64, u32, u128)>| -> Result<V, PStop> {
+                match lab {
+                    Some(PLabel::Indirect(v)) => me.read(v, l),
+                    _ => Err(PStop::Malformed("indirect label expected".into())),
+                }
+            };
+            let out = match jm.mnemonic.as_str() {
+                "BRANCH" => Some(Outcome::Goto { decision: pending, target: direct(&jm.goto)? }),
+                "CBRANCH" => {
+                    let c = self.read(jm.condition.as_ref().ok_or_else(|| PStop::Malformed("no condition".into()))?, &mut l)?;
+                    if c.v != 0 {
+                        Some(Outcome::Goto { decision: Some(true), target: direct(&jm.goto)? })
+                    } else {
+                        pending = Some(false);
+                        None
+                    }
+                }
+                "BRANCHIND" => Some(Outcome::Ind { value: indirect(self, &jm.goto, &mut l)? }),
+                "RETURN" => Some(Outcome::Return { value: indirect(self, &jm.goto, &mut l)? }),
+                "CALL" => {
+                    let c = jm.call.as_ref().ok_or_else(|| PStop::Malformed("no call".into()))?;
+                    Some(Outcome::Call { target: direct(&c.target)?, ret: opt_direct(&c.return_)? })
+                }
+                "CALLIND" => {
+                    let c = jm.call.as_ref().ok_or_else(|| PStop::Malformed("no call".into()))?;
+                    Some(Outcome::CallInd { value: indirect(self, &c.target, &mut l)?, ret: opt_direct(&c.return_)? })
+                }
+                "CALLOTHER" => {
+                    let c = jm.call.as_ref().ok_or_else(|| PStop::Malformed("no call".into()))?;
+                    Some(Outcome::CallOther { desc: c.call_string.clone().unwrap_or_default(), ret: opt_direct(&c.return_)? })
+                }
+                other => return Err(PStop::Malformed(format!("jump mnemonic {other}"))),
+            };
+            push_group(&mut groups, &j.tid.address, l, Vec::new());
+            if let Some(o) = out {
+                return Ok((groups, o));
+            }
+        }
+        Ok((groups, if pending.is_some() { Outcome::CondFallOff } else { Outcome::NoJump }))
+    }
+}
+
+// ---------------------------------------------------------------------------
+// IR side: one lifted block executed by irx
+
+fn tid_key(t: &ir::Tid) -> String {
+    format!("{}@{}", t, t.address)
+}
+
+pub fn run_ir_block(m: &Machine, st: &mut State, blk: &ir::Term<ir::Blk>) -> Result<(Vec<Group>, Outcome), String> {
+    let mut groups = Vec::new();
+    for def in &blk.term.defs {
+        let mut tr: Vec<Ev> = Vec::new();
+        match m.exec_def(st, def, &mut tr) {
+            Ok(()) => (),
+            Err(Stop::Undefined(what)) => return Err(format!("{what} (at {})", def.tid)),
+            Err(Stop::NullAbort(a)) => return Err(format!("null abort {a}")),
+        }
+        let (mut l, mut s) = (Vec::new(), Vec::new());
+        for e in tr {
+            match e {
+                Ev::Load { addr, size, val } => l.push((addr, size, val)),
+                Ev::Store { addr, size, val } => s.push((addr, size, val)),
+                _ => (),
+            }
+        }
+        push_group(&mut groups, &def.tid.address, l, s);
+    }
+    let ev = |st: &State, e: &ir::Expression| -> Result<V, String> {
+        match m.eval(st, e) {
+            Ok(v) => Ok(v),
+            Err(Stop::Undefined(what)) => Err(what),
+            Err(Stop::NullAbort(a)) => Err(format!("null abort {a}")),
+        }
+    };
+    let mut pending: Option<bool> = None;
+    for j in &blk.term.jmps {
+        let out = match &j.term {
+            ir::Jmp::Branch(t) => Outcome::Goto { decision: pending, target: tid_key(t) },
+            ir::Jmp::CBranch { target, condition } => {
+                if ev(st, condition)?.v != 0 {
+                    Outcome::Goto { decision: Some(true), target: tid_key(target) }
+                } else {
+                    pending = Some(false);
+                    continue;
+                }
+            }
+            ir::Jmp::BranchInd(e) => Outcome::Ind { value: ev(st, e)? },
+            ir::Jmp::Return(e) => Outcome::Return { value: ev(st, e)? },
+            ir::Jmp::Call { target, return_ } => Outcome::Call { target: tid_key(target), ret: return_.as_ref().map(tid_key) },
+            ir::Jmp::CallInd { target, return_ } => Outcome::CallInd { value: ev(st, target)?, ret: return_.as_ref().map(tid_key) },
+            ir::Jmp::CallOther { description, return_ } => Outcome::CallOther { desc: description.clone(), ret: return_.as_ref().map(tid_key) },
+        };
+        return Ok((groups, out));
+    }
+    Ok((groups, if pending.is_some() { Outcome::CondFallOff } else { Outcome::NoJump }))
+}
+
+fn expr_vars(e: &ir::Expression, out: &mut Vec<ir::Variable>) {
+    match e {
+        ir::Expression::Var(v) => out.push(v.clone()),
+        ir::Expression::Const(_) | ir::Expression::Unknown { .. } => (),
+        ir::Expression::BinOp { lhs, rhs, .. } => {
+            expr_vars(lhs, out);
+            expr_vars(rhs, out);
+        }
+        ir::Expression::UnOp { arg, .. } | ir::Expression::Cast { arg, .. } | ir::Expression::Subpiece { arg, .. } => expr_vars(arg, out),
+    }
+}
+
+/// Every variable access of the lifted block must be a base register or a temporary defined earlier in the block.
+/// Returns (what, variable) of the first offending access.
+pub fn scan_ir_block(blk: &ir::Term<ir::Blk>, bases: &BTreeMap<String, u64>) -> Option<(&'static str, String)> {
+    let mut defined: BTreeSet<ir::Variable> = BTreeSet::new();
+    let is_base = |v: &ir::Variable| !v.is_temp && bases.get(&v.name) == Some(&u64::from(v.size));
+    let check_reads = |e: &ir::Expression, defined: &BTreeSet<ir::Variable>| -> Option<String> {
+        let mut vs = Vec::new();
+        expr_vars(e, &mut vs);
+        vs.into_iter().find(|v| !(is_base(v) || (v.is_temp && defined.contains(v)))).map(|v| format!("{v}"))
+    };
+    for def in &blk.term.defs {
+        let (reads, write): (Vec<&ir::Expression>, Option<&ir::Variable>) = match &def.term {
+            ir::Def::Assign { var, value } => (vec![value], Some(var)),
+            ir::Def::Load { var, address } => (vec![address], Some(var)),
+            ir::Def::Store { address, value } => (vec![address, value], None),
+        };
+        for e in reads {
+            if let Some(v) = check_reads(e, &defined) {
+                return Some(("read", v));
+            }
+        }
+        if let Some(var) = write {
+            if var.is_temp {
+                defined.insert(var.clone());
+            } else if !is_base(var) {
+                return Some(("write", format!("{var}")));
+            }
+        }
+    }
+    for j in &blk.term.jmps {
+        let e = match &j.term {
+            ir::Jmp::CBranch { condition: e, .. } | ir::Jmp::BranchInd(e) | ir::Jmp::CallInd { target: e, .. } | ir::Jmp::Return(e) => e,
+            _ => continue,
+        };
+        if let Some(v) = check_reads(e, &defined) {
+            return Some(("read", v));
+        }
+    }
+    None
+}
+
+pub fn show_ir_blk(b: &ir::Term<ir::Blk>) -> String {
+    let mut out = format!("  BLK [{}]\n", b.tid);
+    for d in &b.term.defs {
+        out += &format!("    [{}] {}\n", d.tid, d.term);
+    }
+    for j in &b.term.jmps {
+        out += &format!("    [{}] {}\n", j.tid, j.term);
+    }
+    out
+}
+
+// ---------------------------------------------------------------------------
+// Generator of well-sized P-Code (blocks here, programs at the end of the file; also used by C12)
+
+pub const ARITH: &[&str] = &["INT_ADD", "INT_SUB", "INT_XOR", "INT_AND", "INT_OR", "INT_MULT", "INT_DIV", "INT_REM", "INT_SDIV", "INT_SREM"];
+pub const ARITH_WIDE: &[&str] = &["INT_ADD", "INT_SUB", "INT_XOR", "INT_AND", "INT_OR"];
+pub const COMPARE: &[&str] = &["INT_EQUAL", "INT_NOTEQUAL", "INT_LESS", "INT_SLESS", "INT_LESSEQUAL", "INT_SLESSEQUAL", "INT_CARRY", "INT_SCARRY", "INT_SBORROW"];
+pub const SHIFT: &[&str] = &["INT_LEFT", "INT_RIGHT", "INT_SRIGHT"];
+pub const BOOLBIN: &[&str] = &["BOOL_XOR", "BOOL_AND", "BOOL_OR"];
+pub const UNARY: &[&str] = &["INT_NEGATE", "INT_2COMP", "COPY", "COPY"];
+pub const CASTS: &[&str] = &["INT_ZEXT", "INT_ZEXT", "INT_SEXT", "POPCOUNT", "LZCOUNT"];
+pub const FLOAT_BIN: &[&str] = &["FLOAT_ADD", "FLOAT_SUB", "FLOAT_MULT", "FLOAT_DIV"];
+pub const FLOAT_CMP: &[&str] = &["FLOAT_EQUAL", "FLOAT_NOTEQUAL", "FLOAT_LESS", "FLOAT_LESSEQUAL"];
+pub const FLOAT_UN: &[&str] = &["FLOAT_NEG", "FLOAT_ABS", "FLOAT_SQRT", "FLOAT_CEIL", "FLOAT_FLOOR", "FLOAT_ROUND", "CEIL"];
+pub const FLOAT_CAST: &[&str] = &["INT2FLOAT", "FLOAT2FLOAT", "TRUNC"];
+
+pub struct JumpCtx {
+    /// candidate targets of intraprocedural jumps
+    pub blocks: Vec<PTid>,
+    /// candidate call targets (subs and extern symbols)
+    pub callees: Vec<PTid>,
+    pub callother: bool,
+    /// every block gets at least one jump
+    pub force_jump: bool,
+}
+
+pub struct PGen<'a> {
+    pub rng: &'a mut Rng,
+    pub ops: Vec<RegOp>,
+    pub live_temps: Vec<(String, u64)>,
+    temp_counter: u32,
+    instr_counter: u64,
+    pub addr_base: u64,
+    pub floats: bool,
+    /// keep temporaries of every size readable after a same-name redefinition (C12 only: no execution)
+    pub overlap_temps: bool,
+    /// allow 4-byte sub-registers as indirect jump targets
+    pub narrow_targets: bool,
+    pub ram_pool: Vec<u64>,
+}
+
+fn def(t: PTid, lhs: Option<PVar>, mn: &str, i0: Option<PVar>, i1: Option<PVar>, i2: Option<PVar>) -> PTerm<PDef> {
+    PTerm { tid: t, term: PDef { lhs, rhs: PExpr { mnemonic: mn.to_string(), input0: i0, input1: i1, input2: i2 } } }
+}
+
+impl<'a> PGen<'a> {
+    pub fn new(rng: &'a mut Rng) -> PGen<'a> {
+        PGen {
+            rng,
+            ops: reg_operands(&reg_table()),
+            live_temps: Vec::new(),
+            temp_counter: 0,
+            instr_counter: 0,
+            addr_base: 0x0010_0000,
+            floats: false,
+            overlap_temps: false,
+            narrow_targets: true,
+            ram_pool: vec![0x1000, 0x1004, 0x1008, 0x100c, 0x2000, 0x60_1040],
+        }
+    }
+
+    pub fn fresh_tid(&mut self) -> PTid {
+        self.instr_counter += 1;
+        let addr = self.addr_base + self.instr_counter * 4;
+        ptid(&format!("instr_{addr:08x}_{}", self.instr_counter % 3), &format!("{addr:08x}"))
+    }
+
+    fn size(&mut self, allow16: bool, allow_odd: bool) -> u64 {
+        if allow16 && self.rng.chance(1, 10) {
+            return 16;
+        }
+        if allow_odd && self.rng.chance(1, 24) {
+            return *self.rng.pick(&[3u64, 6]);
+        }
+        *self.rng.pick(&[1u64, 1, 2, 2, 4, 4, 4, 8, 8, 8, 8])
+    }
+
+    fn const_of(&mut self, size: u64) -> PVar {
+        let w = size.min(8) as u32;
+        let val = if self.rng.chance(1, 4) { self.rng.below(17) as u128 } else { self.rng.biased(w) };
+        let padded = self.rng.bool();
+        v_const(val, size, padded)
+    }
+
+    fn ram_of(&mut self, size: u64) -> PVar {
+        let a = *self.rng.pick(&self.ram_pool) + if self.rng.chance(1, 3) { self.rng.below(4) } else { 0 };
+        v_ram(a, size)
+    }
+
+    pub fn reg_of(&mut self, size: u64) -> Option<PVar> {
+        let c: Vec<usize> = (0..self.ops.len()).filter(|i| self.ops[*i].size == size).collect();
+        if c.is_empty() {
+            None
+        } else {
+            Some(self.ops[*self.rng.pick(&c)].var())
+        }
+    }
+
+    fn temp_of(&mut self, size: u64) -> Option<PVar> {
+        let c: Vec<usize> = (0..self.live_temps.len()).filter(|i| self.live_temps[*i].1 == size).collect();
+        if c.is_empty() {
+            None
+        } else {
+            let (n, s) = self.live_temps[*self.rng.pick(&c)].clone();
+            Some(v_tmp(&n, s))
+        }
+    }
+
+    /// A readable varnode of the given size.
+    pub fn input(&mut self, size: u64) -> PVar {
+        let roll = self.rng.below(100);
+        if roll < 50 {
+            if let Some(v) = self.reg_of(size) {
+                return v;
+            }
+        }
+        if roll < 68 {
+            if let Some(v) = self.temp_of(size) {
+                return v;
+            }
+        }
+        if roll < 86 {
+            self.const_of(size)
+        } else {
+            self.ram_of(size)
+        }
+    }
+
+    /// A writable varnode of the given size (not yet registered: call `note_output` after the inputs were chosen).
+    pub fn output(&mut self, size: u64) -> PVar {
+        let roll = self.rng.below(100);
+        if roll < 58 {
+            if let Some(v) = self.reg_of(size) {
+                return v;
+            }
+        }
+        if roll < 64 {
+            if let Some(v) = self.temp_of(size) {
+                return v;
+            }
+        }
+        if roll < 70 && !self.live_temps.is_empty() {
+            // redefine an existing temporary name with (possibly) another size
+            let n = self.rng.pick(&self.live_temps).0.clone();
+            return v_tmp(&n, size);
+        }
+        if roll < 88 {
+            self.temp_counter += 1;
+            let n = format!("$U{:x}", 0x1000 + self.temp_counter * 0x80);
+            return v_tmp(&n, size);
+        }
+        self.ram_of(size)
+    }
+
+    fn note_output(&mut self, v: &PVar) {
+        if v.is_virtual {
+            let name = v.name.clone().unwrap();
+            if !self.overlap_temps {
+                self.live_temps.retain(|(n, _)| *n != name);
+            }
+            if !self.live_temps.contains(&(name.clone(), v.size)) {
+                self.live_temps.push((name, v.size));
+            }
+        }
+    }
+
+    fn push(&mut self, out: &mut Vec<PTerm<PDef>>, lhs: Option<PVar>, mn: &str, i0: Option<PVar>, i1: Option<PVar>, i2: Option<PVar>) {
+        let t = self.fresh_tid();
+        if let Some(l) = &lhs {
+            self.note_output(l);
+        }
+        out.push(def(t, lhs, mn, i0, i1, i2));
+    }
+
+    pub fn addr_input(&mut self) -> PVar {
+        if self.rng.chance(3, 5) {
+            v_reg(*self.rng.pick(&["RSP", "RBP", "RBX", "RDI", "RSI", "RAX"]), PTR)
+        } else {
+            self.input(PTR)
+        }
+    }
+
+    fn space_id(&mut self) -> Option<PVar> {
+        if self.rng.bool() {
+            Some(v_const(0x1b1, 8, false))
+        } else {
+            None
+        }
+    }
+
+    /// One operation computing a value of `size` bytes into `target` (or a random output).
+    fn value_op(&mut self, out: &mut Vec<PTerm<PDef>>, size: u64, target: Option<PVar>) {
+        let mut choices: Vec<u32> = vec![0, 0, 1, 1, 2, 5, 6];
+        if size >= 2 {
+            choices.extend([3, 3]); // piece, zext/sext
+            choices.push(7);
+        }
+        if size < 16 {
+            choices.extend([4, 4]); // subpiece
+        }
+        if size == 1 {
+            choices.extend([8, 8, 8, 8, 9, 9]);
+        }
+        let c = *self.rng.pick(&choices);
+        let (mn, i0, i1): (String, PVar, Option<PVar>) = match c {
+            0 => {
+                let l = if size > 8 { ARITH_WIDE } else { ARITH };
+                let a = self.input(size);
+                let b = if self.rng.chance(1, 8) { a.clone() } else { self.input(size) };
+                (self.rng.pick(l).to_string(), a, Some(b))
+            }
+            1 => (self.rng.pick(UNARY).to_string(), self.input(size), None),
+            2 => {
+                let a = self.input(size);
+                let asz = *self.rng.pick(&[1u64, 1, 4, 8]);
+                let b = if self.rng.chance(2, 3) { v_const(*self.rng.pick(&[0u128, 1, 3, 7, 8, 15, 16, 31, 32, 63, 64, 65]), asz, false) } else { self.input(asz) };
+                (self.rng.pick(SHIFT).to_string(), a, Some(b))
+            }
+            3 => {
+                let hi = if size == 16 { 8 } else { self.rng.range_usize(1, size as usize - 1) as u64 };
+                let (a, b) = (self.input(hi), self.input(size - hi));
+                ("PIECE".to_string(), a, Some(b))
+            }
+            4 => {
+                let src = *self.rng.pick(&[2u64, 4, 8, 8, 16].iter().copied().filter(|s| *s >= size).collect::<Vec<_>>());
+                let low = self.rng.below(src - size + 1);
+                let a = self.input(src);
+                ("SUBPIECE".to_string(), a, Some(v_const(low as u128, 4, self.rng.bool())))
+            }
+            5 => (self.rng.pick(&["POPCOUNT", "LZCOUNT"]).to_string(), { let s = self.size(false, false); self.input(s) }, None),
+            6 => ("COPY".to_string(), self.input(size), None),
+            7 => {
+                let smaller: Vec<u64> = [1u64, 2, 4, 8].iter().copied().filter(|s| *s < size).collect();
+                let s = *self.rng.pick(&smaller);
+                (self.rng.pick(&["INT_ZEXT", "INT_SEXT"]).to_string(), self.input(s), None)
+            }
+            8 => {
+                let s = self.size(true, false);
+                let a = self.input(s);
+                let b = if self.rng.chance(1, 8) { a.clone() } else { self.input(s) };
+                (self.rng.pick(COMPARE).to_string(), a, Some(b))
+            }
+            _ => {
+                if self.rng.chance(1, 3) {
+                    ("BOOL_NEGATE".to_string(), self.bool_input(), None)
+                } else {
+                    (self.rng.pick(BOOLBIN).to_string(), self.bool_input(), Some(self.bool_input()))
+                }
+            }
+        };
+        let o = match target {
+            Some(t) => t,
+            None => self.output(size),
+        };
+        self.push(out, Some(o), &mn, Some(i0), i1, None);
+    }
+
+    fn bool_input(&mut self) -> PVar {
+        match self.rng.below(10) {
+            0..=5 => v_reg(*self.rng.pick(&["ZF", "CF", "SF", "OF"]), 1),
+            6 => v_const(self.rng.below(2) as u128, 1, false),
+            _ => self.input(1),
+        }
+    }
+
+    fn load_op(&mut self, out: &mut Vec<PTerm<PDef>>, size: u64, target: Option<PVar>) {
+        let a = self.addr_input();
+        let sp = self.space_id();
+        let o = match target {
+            Some(t) => t,
+            None => {
+                // never a RAM varnode as the output of LOAD
+                let mut o = self.output(size);
+                while o.address.is_some() {
+                    o = self.output(size);
+                }
+                o
+            }
+        };
+        self.push(out, Some(o), "LOAD", sp, Some(a), None);
+    }
+
+    fn float_op(&mut self, out: &mut Vec<PTerm<PDef>>) {
+        let s = *self.rng.pick(&[4u64, 8, 8, 16]);
+        match self.rng.below(5) {
+            0 => {
+                let (a, b) = (self.input(s), self.input(s));
+                let o = self.output(s);
+                let mn = *self.rng.pick(FLOAT_BIN);
+                self.push(out, Some(o), mn, Some(a), Some(b), None);
+            }
+            1 => {
+                let (a, b) = (self.input(s), self.input(s));
+                let o = self.output(1);
+                let mn = *self.rng.pick(FLOAT_CMP);
+                self.push(out, Some(o), mn, Some(a), Some(b), None);
+            }
+            2 => {
+                let a = self.input(s);
+                let o = self.output(s);
+                let mn = *self.rng.pick(FLOAT_UN);
+                self.push(out, Some(o), mn, Some(a), None, None);
+            }
+            3 => {
+                let a = self.input(s);
+                let o = self.output(1);
+                self.push(out, Some(o), "FLOAT_NAN", Some(a), None, None);
+            }
+            _ => {
+                let a = self.input(s);
+                let os = *self.rng.pick(&[2u64, 4, 8, 10]);
+                let o = if os == 10 { v_tmp("$Uf80", 10) } else { self.output(os) };
+                let mn = *self.rng.pick(FLOAT_CAST);
+                self.push(out, Some(o), mn, Some(a), None, None);
+            }
+        }
+    }
+
+    /// `sub = ...; target = CAST(sub)` with the base register (fused by the lifter) and with decoy targets.
+    fn cast_idiom(&mut self, out: &mut Vec<PTerm<PDef>>) {
+        let subs: Vec<usize> = (0..self.ops.len()).filter(|i| !self.ops[*i].is_base()).collect();
+        let r = self.ops[*self.rng.pick(&subs)].clone();
+        if self.rng.chance(1, 3) {
+            self.load_op(out, r.size, Some(r.var()));
+        } else {
+            self.value_op(out, r.size, Some(r.var()));
+        }
+        if self.rng.chance(1, 10) {
+            // something in between: the two defs are no longer adjacent
+            self.gen_op(out);
+        }
+        let mut castop = *self.rng.pick(CASTS);
+        let ext = castop == "INT_ZEXT" || castop == "INT_SEXT";
+        let ok = |o: &RegOp| !ext || o.size > r.size;
+        let roll = self.rng.below(100);
+        let cands: Vec<PVar> = if roll < 55 {
+            self.ops.iter().filter(|o| o.is_base() && o.name == r.base).map(|o| o.var()).collect()
+        } else if roll < 67 {
+            self.ops.iter().filter(|o| o.is_base() && o.name != r.base && ok(o)).map(|o| o.var()).collect()
+        } else if roll < 80 {
+            self.ops.iter().filter(|o| !o.is_base() && o.class != "ssn" && o.base == r.base && o.name != r.name && ok(o)).map(|o| o.var()).collect()
+        } else if roll < 92 {
+            self.ops.iter().filter(|o| o.class == "ssn" && o.base == r.base && ok(o)).map(|o| o.var()).collect()
+        } else {
+            let s = if ext { r.size * 2 } else { 4 };
+            vec![self.output(s)]
+        };
+        let target = if cands.is_empty() { v_reg(&r.base, r.base_size) } else { self.rng.pick(&cands).clone() };
+        if ext && target.size <= r.size {
+            castop = "POPCOUNT";
+        }
+        // the cast input is the sub-register itself, rarely another window of the same base register
+        let input = if self.rng.chance(1, 12) {
+            let others: Vec<PVar> = self.ops.iter().filter(|o| o.base == r.base && o.name != r.name && !o.is_base() && (!ext || o.size < target.size)).map(|o| o.var()).collect();
+            if others.is_empty() {
+                r.var()
+            } else {
+                self.rng.pick(&others).clone()
+            }
+        } else {
+            r.var()
+        };
+        let castop = if (castop == "INT_ZEXT" || castop == "INT_SEXT") && target.size <= input.size { "LZCOUNT" } else { castop };
+        self.push(out, Some(target), castop, Some(input), None, None);
+    }
+
+    pub fn gen_op(&mut self, out: &mut Vec<PTerm<PDef>>) {
+        if self.floats && self.rng.chance(1, 8) {
+            return self.float_op(out);
+        }
+        match self.rng.below(100) {
+            0..=59 => {
+                let s = self.size(true, true);
+                self.value_op(out, s, None)
+            }
+            60..=71 => {
+                let s = self.size(true, false);
+                self.load_op(out, s, None)
+            }
+            72..=81 => {
+                let a = self.addr_input();
+                let s = self.size(true, false);
+                let v = self.input(s);
+                let sp = self.space_id();
+                self.push(out, None, "STORE", sp, Some(a), Some(v));
+            }
+            _ => self.cast_idiom(out),
+        }
+    }
+
+    fn target_input(&mut self, allow_ram: bool) -> PVar {
+        if self.narrow_targets && self.rng.chance(1, 7) {
+            return self.reg_of(4).unwrap();
+        }
+        loop {
+            let v = if self.rng.chance(1, 3) { v_reg(*self.rng.pick(&["RAX", "RBX", "RDX", "RCX"]), PTR) } else { self.input(PTR) };
+            if v.address.is_some() && !allow_ram {
+                continue;
+            }
+            return v;
+        }
+    }
+
+    fn cond_input(&mut self) -> PVar {
+        loop {
+            let v = self.bool_input();
+            if v.address.is_none() {
+                return v;
+            }
+        }
+    }
+
+    pub fn gen_jmps(&mut self, ctx: &JumpCtx) -> Vec<PTerm<PJmp>> {
+        let mut out = Vec::new();
+        let j = |mn: &str| PJmp { mnemonic: mn.to_string(), goto: None, call: None, condition: None, target_hints: None };
+        let blk = |me: &mut Self| PLabel::Direct(me.rng.pick(&ctx.blocks).clone());
+        let ret = |me: &mut Self| if me.rng.chance(1, 6) { None } else { Some(PLabel::Direct(me.rng.pick(&ctx.blocks).clone())) };
+        let mut roll = self.rng.below(100);
+        if ctx.force_jump && roll < 8 {
+            roll = 8 + self.rng.below(92);
+        }
+        if roll >= 86 && roll < 93 && !ctx.callother {
+            roll = 30;
+        }
+        match roll {
+            0..=7 => (),
+            8..=22 => {
+                let t = self.fresh_tid();
+                out.push(PTerm { tid: t, term: PJmp { goto: Some(blk(self)), ..j("BRANCH") } });
+            }
+            23..=47 => {
+                let c = self.cond_input();
+                let t = self.fresh_tid();
+                out.push(PTerm { tid: t, term: PJmp { goto: Some(blk(self)), condition: Some(c), ..j("CBRANCH") } });
+                if ctx.force_jump || !self.rng.chance(1, 10) {
+                    let t = self.fresh_tid();
+                    out.push(PTerm { tid: t, term: PJmp { goto: Some(blk(self)), ..j("BRANCH") } });
+                }
+            }
+            48..=57 => {
+                let v = self.target_input(true);
+                let hints = if self.rng.bool() { Some(ctx.blocks.iter().take(2).map(|b| b.address.clone()).collect()) } else { Some(Vec::new()) };
+                let t = self.fresh_tid();
+                out.push(PTerm { tid: t, term: PJmp { goto: Some(PLabel::Indirect(v)), target_hints: hints, ..j("BRANCHIND") } });
+            }
+            58..=69 => {
+                let target = Some(PLabel::Direct(self.rng.pick(&ctx.callees).clone()));
+                let r = ret(self);
+                let t = self.fresh_tid();
+                out.push(PTerm { tid: t, term: PJmp { call: Some(PCall { target, return_: r, call_string: None }), ..j("CALL") } });
+            }
+            70..=79 => {
+                let v = self.target_input(true);
+                let r = ret(self);
+                let t = self.fresh_tid();
+                out.push(PTerm { tid: t, term: PJmp { call: Some(PCall { target: Some(PLabel::Indirect(v)), return_: r, call_string: None }), ..j("CALLIND") } });
+            }
+            86..=92 => {
+                let r = ret(self);
+                let d = self.rng.pick(&["cpuid", "unimplemented", "swi"]).to_string();
+                let t = self.fresh_tid();
+                out.push(PTerm { tid: t, term: PJmp { call: Some(PCall { target: None, return_: r, call_string: Some(d) }), ..j("CALLOTHER") } });
+            }
+            _ => {
+                let v = self.target_input(false);
+                let t = self.fresh_tid();
+                out.push(PTerm { tid: t, term: PJmp { goto: Some(PLabel::Indirect(v)), ..j("RETURN") } });
+            }
+        }
+        out
+    }
+
+    /// One block at `addr` with `n_ops` generated operations (idioms may add more defs).
+    pub fn gen_block(&mut self, addr: u64, n_ops: usize, ctx: &JumpCtx) -> PTerm<PBlk> {
+        self.addr_base = addr;
+        self.instr_counter = 0;
+        self.live_temps.clear();
+        let mut defs = Vec::new();
+        for _ in 0..n_ops {
+            self.gen_op(&mut defs);
+        }
+        let jmps = self.gen_jmps(ctx);
+        PTerm { tid: ptid(&format!("blk_{addr:08x}"), &format!("{addr:08x}")), term: PBlk { defs, jmps } }
+    }
+}
+
+pub fn block_ctx() -> JumpCtx {
+    JumpCtx {
+        blocks: vec![ptid("blk_00200000", "00200000"), ptid("blk_00200040", "00200040"), ptid("blk_00200080", "00200080")],
+        callees: vec![ptid("sub_00300000", "00300000"), ptid("sub_ext_a", "00400000")],
+        callother: true,
+        force_jump: false,
+    }
+}
+
+// ---------------------------------------------------------------------------
+// Lifting one block and comparing the two executions
+
+pub struct Ctx {
+    pub template: pcode::Project,
+    pub table: BTreeMap<String, PReg>,
+    /// base register name -> size
+    pub bases: BTreeMap<String, u64>,
+    pub ops: Vec<RegOp>,
+}
+
+impl Ctx {
+    pub fn new() -> Ctx {
+        let table = reg_table();
+        let template: pcode::Project = serde_json::from_value(serde_json::to_value(empty_project(vec![], vec![], vec![])).unwrap()).expect("template project");
+        Ctx {
+            template,
+            bases: table.iter().filter(|r| r.register == r.base_register).map(|r| (r.register.clone(), r.size)).collect(),
+            ops: reg_operands(&table),
+            table: table.into_iter().map(|r| (r.register.clone(), r)).collect(),
+        }
+    }
+
+    pub fn class_of(&self, v: &PVar) -> &'static str {
+        if v.address.is_some() {
+            "ram"
+        } else if v.value.is_some() {
+            "const"
+        } else if v.is_virtual {
+            "temp"
+        } else {
+            let n = v.name.as_deref().unwrap_or("");
+            self.ops.iter().find(|o| o.name == n && o.size == v.size).map(|o| o.class).unwrap_or("unknown-register")
+        }
+    }
+
+    fn base_of(&self, v: &PVar) -> Option<&str> {
+        if v.is_virtual {
+            return None;
+        }
+        v.name.as_ref().and_then(|n| self.table.get(n)).map(|r| r.base_register.as_str())
+    }
+}
+
+impl Default for Ctx {
+    fn default() -> Self {
+        Ctx::new()
+    }
+}
+
+pub fn lift_block(ctx: &Ctx, blk: &PTerm<PBlk>) -> Result<ir::Project, String> {
+    let sub = PTerm {
+        tid: ptid(&format!("sub_{}", blk.tid.address), &blk.tid.address),
+        term: PSub { name: "f".to_string(), blocks: vec![blk.clone()], calling_convention: None },
+    };
+    let sub_term: ir::Term<pcode::Sub> = serde_json::from_value(serde_json::to_value(&sub).unwrap()).map_err(|e| format!("extractor JSON rejected: {e} @ serde"))?;
+    guard(|| {
+        let mut p = ctx.template.clone();
+        p.program.term.subs.push(sub_term);
+        let _ = p.normalize();
+        p.into_ir_project(0)
+    })
+}
+
+pub const PROPOSED_KNOWN_SSN_CAST_FUSION: &str = "c11-cast-fusion-into-smaller-same-name-target";
+
+/// Proposed discriminator (not applied to the verdict): the first surviving write in the lifted block is
+/// `B:s = Cast(..)` where B is the name of a base register, s < |B|, the P-Code def with the same tid is a cast
+/// whose input is a true sub-register R of B, and the P-Code def right before it writes R — i.e. the
+/// cast-to-base fusion fired although the cast target is only a same-name smaller window of the base register.
+pub fn fused_cast_into_smaller_same_name_target(ctx: &Ctx, blk: &PBlk, irblk: &ir::Term<ir::Blk>) -> bool {
+    let is_base = |v: &ir::Variable| !v.is_temp && ctx.bases.get(&v.name) == Some(&u64::from(v.size));
+    for d in &irblk.term.defs {
+        let var = match &d.term {
+            ir::Def::Assign { var, .. } | ir::Def::Load { var, .. } => var,
+            ir::Def::Store { .. } => continue,
+        };
+        if var.is_temp || is_base(var) {
+            continue;
+        }
+        // first surviving write
+        let ir::Def::Assign { value: ir::Expression::Cast { .. }, .. } = &d.term else { return false };
+        let Some(bsize) = ctx.bases.get(&var.name) else { return false };
+        if u64::from(var.size) >= *bsize {
+            return false;
+        }
+        let id = format!("{}", d.tid);
+        let Some(k) = blk.defs.iter().position(|p| p.tid.id == id) else { return false };
+        if k == 0 || !matches!(op_kind(&blk.defs[k].term.rhs.mnemonic), Some(OpKind::Cast(_))) {
+            return false;
+        }
+        let Some(input) = &blk.defs[k].term.rhs.input0 else { return false };
+        let sub_of_base = !input.is_virtual && input.name.as_ref().and_then(|n| ctx.table.get(n)).map(|r| r.base_register == var.name && r.register != r.base_register).unwrap_or(false);
+        return sub_of_base && blk.defs[k - 1].term.lhs.as_ref() == Some(input);
+    }
+    false
+}
+
+fn jmp_tag(ctx: &Ctx, blk: &PBlk) -> String {
+    let mut parts = Vec::new();
+    for j in &blk.jmps {
+        let operand = match (&j.term.goto, j.term.call.as_ref().and_then(|c| c.target.as_ref()), &j.term.condition) {
+            (_, _, Some(c)) => ctx.class_of(c),
+            (Some(PLabel::Indirect(v)), _, _) | (_, Some(PLabel::Indirect(v)), _) => ctx.class_of(v),
+            _ => "direct",
+        };
+        parts.push(format!("{}({operand})", j.term.mnemonic));
+    }
+    parts.join("+")
+}
+
+fn init_state(ctx: &Ctx, rng: &mut Rng, ram_pool: &[u64]) -> BTreeMap<String, Vec<u8>> {
+    let mut regs = BTreeMap::new();
+    for (name, size) in &ctx.bases {
+        let mut bytes = vec![0u8; *size as usize];
+        if *size == 1 {
+            bytes[0] = if rng.chance(3, 4) { rng.below(2) as u8 } else { rng.next_u64() as u8 };
+        } else {
+            for chunk in 0..(*size as usize).div_ceil(8) {
+                let v: u64 = if rng.chance(1, 4) {
+                    (*rng.pick(ram_pool)).wrapping_add(rng.below(9)).wrapping_sub(4)
+                } else if rng.chance(1, 3) {
+                    rng.biased(8) as u64
+                } else {
+                    rng.next_u64()
+                };
+                for i in 0..8 {
+                    if chunk * 8 + i < bytes.len() {
+                        bytes[chunk * 8 + i] = (v >> (8 * i)) as u8;
+                    }
+                }
+            }
+        }
+        regs.insert(name.clone(), bytes);
+    }
+    regs
+}
+
+fn bytes_to_v(bytes: &[u8]) -> V {
+    let mut v = 0u128;
+    for (i, b) in bytes.iter().enumerate() {
+        v |= (*b as u128) << (8 * i);
+    }
+    V::new(v, bytes.len() as u32)
+}
+
+fn show_regs(regs: &BTreeMap<String, Vec<u8>>) -> String {
+    regs.iter().map(|(n, b)| format!("{n}={:#x}", bytes_to_v(b).v)).collect::<Vec<_>>().join(" ")
+}
+
+const RAM_POOL: &[u64] = &[0x1000, 0x1004, 0x1008, 0x100c, 0x2000, 0x60_1040];
+
+fn check_block_inner(ctx: &Ctx, blk: &PTerm<PBlk>, state_seed: u64, n_states: usize, rep: &mut Report, track: bool) {
+    let case = || json!({"kind":"block","block":blk,"state_seed":state_seed,"n_states":n_states});
+    let size = (blk.term.defs.len() * 4 + blk.term.jmps.len()) as u64;
+    rep.eval();
+    let project = match lift_block(ctx, blk) {
+        Ok(p) => p,
+        Err(p) => {
+            rep.violation(format!("lift:panic:{}", panic_site(&p)), None, format!("lifting panicked: {p}\n{}", show_blk(blk)), case(), size);
+            return;
+        }
+    };
+    let sub = match project.program.term.subs.values().next() {
+        Some(s) if s.term.blocks.len() == 1 => s,
+        _ => {
+            rep.violation("lift:block-count", None, format!("lifting one block did not produce exactly one IR block\n{}", show_blk(blk)), case(), size);
+            return;
+        }
+    };
+    let irblk = &sub.term.blocks[0];
+    let both = || format!("--- P-Code block:\n{}--- lifted IR block:\n{}", show_blk(blk), show_ir_blk(irblk));
+    if let Some((what, var)) = scan_ir_block(irblk, &ctx.bases) {
+        let kind = if var.contains("(temp)") {
+            "temporary-not-defined-in-block"
+        } else {
+            // class of the surviving register operand: sublow / submid / subhigh / ssn (same-name smaller)
+            let (n, sz) = var.split_once(':').unwrap_or((var.as_str(), ""));
+            let sz: u64 = sz.parse().unwrap_or(0);
+            ctx.ops.iter().find(|o| o.name == n && o.size == sz).map(|o| o.class).unwrap_or("unknown-register")
+        };
+        let mut c = case();
+        let mut shape = "";
+        if what == "write" && fused_cast_into_smaller_same_name_target(ctx, &blk.term, irblk) {
+            c["matches_proposed_discriminator"] = json!(PROPOSED_KNOWN_SSN_CAST_FUSION);
+            shape = ":fused-cast";
+        }
+        rep.violation(
+            format!("subregister-survived:{what}:{kind}{shape}"),
+            None,
+            format!("the lifted block has a {what} access to {var}, which is neither a base register nor a temporary defined earlier in the block\n{}", both()),
+            c,
+            size,
+        );
+        return;
+    }
+    // indirect jump target hints are carried over one to one
+    let hints: Vec<String> = blk.term.jmps.iter().find_map(|j| j.term.target_hints.clone()).unwrap_or_default().iter().map(|a| format!("blk_{a}@{a}")).collect();
+    let got_hints: Vec<String> = irblk.term.indirect_jmp_targets.iter().map(tid_key).collect();
+    if hints != got_hints {
+        rep.violation("indirect-target-hints", None, format!("target hints {hints:?} became {got_hints:?}\n{}", both()), case(), size);
+    }
+    let mut completed = 0usize;
+    for k in 0..n_states {
+        let mut rng = Rng::derive(state_seed, "c11-state", k as u64);
+        let mut m = Machine::new(rng.next_u64());
+        m.flags_01 = false;
+        let regs0 = init_state(ctx, &mut rng, RAM_POOL);
+        rep.eval();
+        // reference
+        let mut px = Pcx { table: &ctx.table, machine: &m, regs: regs0.clone(), temps: BTreeMap::new(), mem: BTreeMap::new() };
+        let (g0, o0) = match px.run_block(&blk.term) {
+            Ok(r) => r,
+            Err(PStop::Undefined(_)) => {
+                if track {
+                    rep.obs("state:reference-undefined(skipped)");
+                }
+                continue;
+            }
+            Err(PStop::Malformed(w)) => {
+                rep.inconclusive("harness:malformed-pcode");
+                rep.note(format!("generator produced malformed P-Code: {w}\n{}", show_blk(blk)));
+                return;
+            }
+        };
+        // lifted block
+        let mut st = State::default();
+        for (name, bytes) in &regs0 {
+            st.vars.insert(ir::Variable { name: name.clone(), size: ir::ByteSize::new(bytes.len() as u64), is_temp: false }, bytes_to_v(bytes));
+        }
+        let state_txt = || format!("initial state #{k} (state seed {state_seed}): {}", show_regs(&regs0));
+        let (g1, o1) = match run_ir_block(&m, &mut st, irblk) {
+            Ok(r) => r,
+            Err(what) => {
+                let class: String = what.split(" at ").next().unwrap_or("").split(' ').take(3).collect::<Vec<_>>().join("-");
+                rep.violation(format!("ir-undefined:{class}"), None, format!("the reference executes the block, the lifted block has no defined behaviour: {what}\n{}\n{}", state_txt(), both()), case(), size);
+                return;
+            }
+        };
+        completed += 1;
+        // memory events per instruction
+        let norm = |g: &[Group]| -> Vec<Group> {
+            g.iter()
+                .map(|g| {
+                    let mut g = g.clone();
+                    g.loads.sort();
+                    g
+                })
+                .collect()
+        };
+        let (n0, n1) = (norm(&g0), norm(&g1));
+        if n0 != n1 {
+            let idx = n0.iter().zip(n1.iter()).position(|(a, b)| a != b).unwrap_or(n0.len().min(n1.len()));
+            let addr = n0.get(idx).or(n1.get(idx)).map(|g| g.addr.clone()).unwrap_or_default();
+            let mn = blk.term.defs.iter().find(|d| d.tid.address == addr).map(|d| d.term.rhs.mnemonic.clone()).or_else(|| blk.term.jmps.iter().find(|j| j.tid.address == addr).map(|j| j.term.mnemonic.clone())).unwrap_or_else(|| "?".into());
+            let what = match (n0.get(idx), n1.get(idx)) {
+                (Some(a), Some(b)) if a.addr == b.addr && a.loads == b.loads => "store-sequence",
+                (Some(a), Some(b)) if a.addr == b.addr && a.stores == b.stores => "load-set",
+                _ => "memory-events",
+            };
+            let family = match mn.as_str() {
+                "LOAD" | "STORE" => mn.as_str(),
+                "BRANCHIND" | "CALLIND" => "jump-operand",
+                _ => "implicit-ram-operand",
+            };
+            rep.violation(
+                format!("{what}:{family}"),
+                None,
+                format!("memory accesses differ at instruction {addr} ({mn})\n  reference: {:?}\n  lifted:    {:?}\n{}\n{}", n0.get(idx), n1.get(idx), state_txt(), both()),
+                case(),
+                size,
+            );
+            return;
+        }
+        // jumps
+        if o0 != o1 {
+            let what = match (&o0, &o1) {
+                (Outcome::Goto { decision: d0, .. }, Outcome::Goto { decision: d1, .. }) if d0 != d1 => "branch-decision",
+                (Outcome::Goto { .. }, Outcome::Goto { .. }) => "branch-target",
+                (Outcome::Goto { .. }, Outcome::CondFallOff) | (Outcome::CondFallOff, Outcome::Goto { .. }) => "branch-decision",
+                (Outcome::Ind { .. }, Outcome::Ind { .. }) => "indirect-target",
+                (Outcome::CallInd { value: a, .. }, Outcome::CallInd { value: b, .. }) if a != b => "indirect-target",
+                (Outcome::Return { .. }, Outcome::Return { .. }) => "return-target",
+                (Outcome::Call { .. }, _) | (Outcome::CallInd { .. }, _) | (Outcome::CallOther { .. }, _) => "call",
+                _ => "jump-kind",
+            };
+            let first = jmp_tag(ctx, &blk.term).split('+').next().unwrap_or("").to_string();
+            rep.violation(format!("{what}:{first}"), None, format!("jump outcome differs\n  reference: {o0:?}\n  lifted:    {o1:?}\n{}\n{}", state_txt(), both()), case(), size);
+            return;
+        }
+        // final register contents
+        for (name, bytes) in &px.regs {
+            let var = ir::Variable { name: name.clone(), size: ir::ByteSize::new(bytes.len() as u64), is_temp: false };
+            let expect = bytes_to_v(bytes);
+            let got = st.vars.get(&var).copied();
+            if got != Some(expect) {
+                // the last operation writing into this base register
+                let culprit = blk.term.defs.iter().rev().find(|d| d.term.lhs.as_ref().and_then(|l| ctx.base_of(l)) == Some(name.as_str()));
+                // coarse signature: class of the last register operand written inside this base register
+                let tag = culprit.map(|d| format!("last-write-{}", ctx.class_of(d.term.lhs.as_ref().unwrap()))).unwrap_or_else(|| "not-written".into());
+                rep.violation(
+                    format!("final-register:{tag}"),
+                    None,
+                    format!("final content of base register {name}: reference {:#x}, lifted {}\n{}\n{}", expect.v, got.map(|g| format!("{:#x}", g.v)).unwrap_or_else(|| "none".into()), state_txt(), both()),
+                    case(),
+                    size,
+                );
+                return;
+            }
+        }
+        if track && k == 0 {
+            rep.obs(&format!("outcome:{}", match &o0 {
+                Outcome::NoJump => "no-jump",
+                Outcome::CondFallOff => "conditional-not-taken-no-fallthrough",
+                Outcome::Goto { decision: None, .. } => "goto",
+                Outcome::Goto { decision: Some(true), .. } => "conditional-taken",
+                Outcome::Goto { decision: Some(false), .. } => "conditional-fallthrough",
+                Outcome::Ind { .. } => "indirect-jump",
+                Outcome::Call { .. } => "call",
+                Outcome::CallInd { .. } => "indirect-call",
+                Outcome::CallOther { .. } => "callother",
+                Outcome::Return { .. } => "return",
+            }));
+            if g0.iter().any(|g| !g.loads.is_empty()) {
+                rep.obs("blocks-with-loads");
+            }
+            if g0.iter().any(|g| !g.stores.is_empty()) {
+                rep.obs("blocks-with-stores");
+            }
+        }
+    }
+    if track {
+        let mut interesting = false;
+        for d in &blk.term.defs {
+            rep.obs(&format!("op:{}", d.term.rhs.mnemonic));
+            for v in [&d.term.lhs, &d.term.rhs.input0, &d.term.rhs.input1, &d.term.rhs.input2].into_iter().flatten() {
+                let c = ctx.class_of(v);
+                if !matches!(c, "base" | "flag" | "temp" | "const") {
+                    interesting = true;
+                }
+            }
+            if let Some(l) = &d.term.lhs {
+                rep.obs(&format!("out:{}", ctx.class_of(l)));
+            }
+        }
+        for j in &blk.term.jmps {
+            rep.obs(&format!("jmp:{}", j.term.mnemonic));
+        }
+        if irblk.term.defs.len() < blk.term.defs.len() {
+            rep.obs("cast-to-base-fused");
+        }
+        let tag = jmp_tag(ctx, &blk.term);
+        if tag.contains("sub") || tag.contains("ram") || tag.contains("ssn") {
+            interesting = true;
+        }
+        if interesting && completed > 0 {
+            rep.nontrivial(hash_str(&serde_json::to_string(blk).unwrap_or_default()));
+        }
+    }
+}
+
+/// Greedy shrinking of a violating block: drop defs and jumps while the same signature is still reported.
+fn minimise(ctx: &Ctx, blk: &PTerm<PBlk>, sig: &str, state_seed: u64, n_states: usize) -> PTerm<PBlk> {
+    let still = |b: &PTerm<PBlk>| -> bool {
+        let mut r = Report::new();
+        check_block_inner(ctx, b, state_seed, n_states, &mut r, false);
+        r.inconclusive.is_empty() && r.violations.contains_key(sig)
+    };
+    let mut cur = blk.clone();
+    loop {
+        let mut changed = false;
+        for i in (0..cur.term.defs.len()).rev() {
+            let mut c = cur.clone();
+            c.term.defs.remove(i);
+            if still(&c) {
+                cur = c;
+                changed = true;
+            }
+        }
+        for i in (0..cur.term.jmps.len()).rev() {
+            let mut c = cur.clone();
+            c.term.jmps.remove(i);
+            if still(&c) {
+                cur = c;
+                changed = true;
+            }
+        }
+        if !changed {
+            return cur;
+        }
+    }
+}
+
+pub fn check_block(ctx: &Ctx, blk: &PTerm<PBlk>, state_seed: u64, n_states: usize, rep: &mut Report, shrink: bool) {
+    let mut tmp = Report::new();
+    check_block_inner(ctx, blk, state_seed, n_states, &mut tmp, true);
+    if shrink && !tmp.violations.is_empty() && rep.violation_count < 12 {
+        let sigs: Vec<String> = tmp.violations.keys().cloned().collect();
+        for sig in sigs {
+            let small = minimise(ctx, blk, &sig, state_seed, n_states);
+            let mut r = Report::new();
+            check_block_inner(ctx, &small, state_seed, n_states, &mut r, false);
+            if let Some(v) = r.violations.remove(&sig) {
+                tmp.violations.insert(sig, v);
+            }
+        }
+    }
+    rep.merge(tmp);
+}
+
+// ---------------------------------------------------------------------------
+// Systematic sweep
+
+pub fn sweep_blocks(ctx: &Ctx) -> Vec<PTerm<PBlk>> {
+    let mut out: Vec<PTerm<PBlk>> = Vec::new();
+    let mut n = 0u64;
+    let mut mk = |defs: Vec<(Option<PVar>, &str, Option<PVar>, Option<PVar>, Option<PVar>)>, jmps: Vec<PJmp>| {
+        n += 1;
+        let addr = 0x0050_0000 + n * 0x100;
+        let mut k = 0;
+        let mut tid = || {
+            k += 1;
+            ptid(&format!("instr_{:08x}_{k}", addr + k * 4), &format!("{:08x}", addr + k * 4))
+        };
+        let defs = defs.into_iter().map(|(l, m, a, b, c)| def(tid(), l, m, a, b, c)).collect();
+        let jmps = jmps.into_iter().map(|j| PTerm { tid: tid(), term: j }).collect();
+        out.push(PTerm { tid: ptid(&format!("blk_{addr:08x}"), &format!("{addr:08x}")), term: PBlk { defs, jmps } });
+    };
+    let tdef = |size: u64| (Some(v_tmp("$U100", size)), "COPY", Some(v_const(0x1122_3344_5566_7788_u128 ^ (size as u128) << 3, size, true)), None, None);
+    // (1) every output operand x every input operand of the same size
+    for size in [1u64, 2, 4, 8, 16] {
+        let mut operands: Vec<PVar> = ctx.ops.iter().filter(|o| o.size == size).map(|o| o.var()).collect();
+        operands.push(v_tmp("$U100", size));
+        operands.push(v_ram(0x1000, size));
+        for o in &operands {
+            for i in operands.iter().chain([v_const(0x8f, size, false)].iter()) {
+                let mut pre = Vec::new();
+                if i.is_virtual {
+                    pre.push(tdef(size));
+                }
+                let mut d1 = pre.clone();
+                d1.push((Some(o.clone()), "COPY", Some(i.clone()), None, None));
+                mk(d1, vec![]);
+                let mut d2 = pre.clone();
+                d2.push((Some(o.clone()), "INT_XOR", Some(v_const(0x5a, size, false)), Some(i.clone()), None));
+                mk(d2, vec![]);
+            }
+            // loads and stores through/of this operand
+            if o.address.is_none() {
+                mk(vec![(Some(o.clone()), "LOAD", None, Some(v_reg("RBX", 8)), None)], vec![]);
+            }
+            let mut d = Vec::new();
+            if o.is_virtual {
+                d.push(tdef(size));
+            }
+            d.push((None, "STORE", Some(v_const(0x1b1, 8, false)), Some(v_reg("RBX", 8)), Some(o.clone())));
+            mk(d, vec![]);
+        }
+    }
+    // (2) every sub-register x every cast x every target operand
+    for r in ctx.ops.iter().filter(|o| !o.is_base()) {
+        for cast in ["INT_ZEXT", "INT_SEXT", "POPCOUNT", "LZCOUNT"] {
+            for t in ctx.ops.iter() {
+                if cast.starts_with("INT_") && t.size <= r.size {
+                    continue;
+                }
+                let first = (Some(r.var()), "COPY", Some(v_const(0x80f1_e2d3_c4b5_a697, r.size, false)), None, None);
+                mk(vec![first, (Some(t.var()), cast, Some(r.var()), None, None)], vec![]);
+                if cast == "INT_ZEXT" || cast == "POPCOUNT" {
+                    let first = (Some(r.var()), "LOAD", None, Some(v_reg("RDI", 8)), None);
+                    mk(vec![first, (Some(t.var()), cast, Some(r.var()), None, None)], vec![]);
+                }
+            }
+        }
+    }
+    // (3) every jump mnemonic x every operand
+    let j = |mn: &str| PJmp { mnemonic: mn.to_string(), goto: None, call: None, condition: None, target_hints: None };
+    let b1 = ptid("blk_00200000", "00200000");
+    let b2 = ptid("blk_00200040", "00200040");
+    for o in ctx.ops.iter().filter(|o| o.size == 1) {
+        for val in [0u128, 1, 2] {
+            let set = (Some(o.var()), "COPY", Some(v_const(val, 1, false)), None, None);
+            mk(vec![set], vec![PJmp { goto: Some(PLabel::Direct(b1.clone())), condition: Some(o.var()), ..j("CBRANCH") }, PJmp { goto: Some(PLabel::Direct(b2.clone())), ..j("BRANCH") }]);
+        }
+    }
+    for o in ctx.ops.iter().filter(|o| o.size == 8 || o.size == 4).map(|o| o.var()).chain([v_ram(0x2000, 8), v_const(0x40_1000, 8, true)]) {
+        mk(vec![], vec![PJmp { goto: Some(PLabel::Indirect(o.clone())), target_hints: Some(vec!["00200000".into()]), ..j("BRANCHIND") }]);
+        mk(vec![], vec![PJmp { call: Some(PCall { target: Some(PLabel::Indirect(o.clone())), return_: Some(PLabel::Direct(b1.clone())), call_string: None }), ..j("CALLIND") }]);
+        if o.address.is_none() {
+            mk(vec![], vec![PJmp { goto: Some(PLabel::Indirect(o.clone())), ..j("RETURN") }]);
+        }
+    }
+    mk(vec![], vec![PJmp { call: Some(PCall { target: Some(PLabel::Direct(ptid("sub_00300000", "00300000"))), return_: None, call_string: None }), ..j("CALL") }]);
+    mk(vec![], vec![PJmp { call: Some(PCall { target: None, return_: Some(PLabel::Direct(b2.clone())), call_string: Some("cpuid".into()) }), ..j("CALLOTHER") }]);
+    out
+}
+
+fn run(cfg: &Cfg) -> Report {
+    let ctx = Ctx::new();
+    let sweep = sweep_blocks(&ctx);
+    let shards = cfg.tier.pick(256usize, 2048usize);
+    let per_shard = cfg.tier.pick(5000usize, 1500usize);
+    let n_states = cfg.tier.pick(8usize, 64usize);
+    let jctx = block_ctx();
+    let mut rep = par_shards(cfg, "c11", shards, |idx, rng, rep| {
+        for (i, b) in sweep.iter().enumerate() {
+            if i % shards == idx {
+                check_block(&ctx, b, mix(cfg.seed, i as u64), n_states, rep, true);
+                rep.obs("workload:sweep");
+            }
+        }
+        let mut g = PGen::new(rng);
+        for i in 0..per_shard {
+            let n_ops = g.rng.range_usize(1, 12);
+            let blk = g.gen_block(0x0010_0000 + (i as u64) * 0x1000, n_ops, &jctx);
+            let seed = g.rng.next_u64();
+            check_block(&ctx, &blk, seed, n_states, rep, true);
+            rep.obs("workload:random");
+            if idx == 0 && i < 3 {
+                rep.sample(json!({"pcode_block": show_blk(&blk), "lifted": lift_block(&ctx, &blk).ok().map(|p| p.program.term.subs.values().next().map(|s| show_ir_blk(&s.term.blocks[0]))), "state_seed": seed, "initial_states": n_states}));
+            }
+        }
+    });
+    rep.exhaustive_parts.push(format!("sweep of {} blocks: every (output operand x input operand) of equal size for COPY/INT_XOR/LOAD/STORE, every (sub-register x cast x target register) pair, every jump mnemonic x every operand", sweep.len()));
+    rep
+}
+
+fn replay(_cfg: &Cfg, case: &Value) -> Report {
+    let mut rep = Report::new();
+    match serde_json::from_value::<PTerm<PBlk>>(case["block"].clone()) {
+        Ok(blk) => {
+            let ctx = Ctx::new();
+            let seed = case["state_seed"].as_u64().unwrap_or(1);
+            let n = case["n_states"].as_u64().unwrap_or(8) as usize;
+            check_block(&ctx, &blk, seed, n, &mut rep, false);
+        }
+        Err(e) => rep.note(format!("cannot parse replay case: {e}")),
+    }
+    rep
+}
+
+// ---------------------------------------------------------------------------
+// Program-level generator (used by C12)
+
+fn arg_reg(name: &str, size: u64, intent: &str) -> PArg {
+    PArg { var: Some(v_reg(name, size)), location: None, intent: intent.to_string() }
+}
+fn arg_stack(offset: u64, size: u64) -> PArg {
+    PArg {
+        var: None,
+        location: Some(PExpr { mnemonic: "LOAD".into(), input0: Some(PVar { name: None, value: None, address: Some(format!("0x{offset:x}")), size, is_virtual: false }), input1: None, input2: None }),
+        intent: "INPUT".into(),
+    }
+}
+
+/// A random well-sized P-Code program: 1-3 subs, 2-10 blocks, jumps between them, extern symbols.
+pub fn gen_program(rng: &mut Rng, floats: bool) -> PProject {
+    let n_subs = rng.range_usize(1, 3);
+    let total_blocks = rng.range_usize(2.max(n_subs), 10);
+    let mut per_sub = vec![1usize; n_subs];
+    for _ in n_subs..total_blocks {
+        let i = rng.usize_below(n_subs);
+        per_sub[i] += 1;
+    }
+    let blk_addr = |s: usize, b: usize| 0x0010_0000u64 + (s as u64) * 0x1_0000 + (b as u64) * 0x400;
+    let blk_tid = |s: usize, b: usize| ptid(&format!("blk_{:08x}", blk_addr(s, b)), &format!("{:08x}", blk_addr(s, b)));
+    let sub_tids: Vec<PTid> = (0..n_subs).map(|s| ptid(&format!("sub_{:08x}", blk_addr(s, 0)), &format!("{:08x}", blk_addr(s, 0)))).collect();
+    // extern symbols
+    let mut externs = vec![
+        PExtern { tid: ptid("sub_00400000", "00400000"), addresses: vec!["00400000".into()], name: "ext_a".into(), calling_convention: Some("__stdcall".into()), arguments: vec![arg_reg("RDI", 8, "INPUT"), arg_reg("EAX", 4, "OUTPUT")], no_return: false, has_var_args: false },
+        PExtern { tid: ptid("sub_00400010", "00400010"), addresses: vec!["00400010".into()], name: "ext_b".into(), calling_convention: None, arguments: vec![arg_reg("ESI", 4, "INPUT"), arg_stack(8, 4), arg_stack(0x10, 8), arg_reg("XMM0_Qa", 8, "OUTPUT")], no_return: false, has_var_args: true },
+    ];
+    if rng.chance(1, 3) {
+        externs.push(PExtern { tid: ptid("sub_00400020", "00400020"), addresses: vec!["00400020".into()], name: "exit".into(), calling_convention: Some("__stdcall".into()), arguments: vec![arg_reg("EDI", 4, "INPUT")], no_return: true, has_var_args: false });
+    }
+    if rng.chance(1, 3) {
+        let name = *rng.pick(&["scanf", "sscanf", "__isoc99_sscanf"]);
+        externs.push(PExtern { tid: ptid("sub_00400030", "00400030"), addresses: vec!["00400030".into()], name: name.into(), calling_convention: Some("__stdcall".into()), arguments: vec![arg_reg("EAX", 4, "OUTPUT")], no_return: false, has_var_args: true });
+    }
+    let mut callees: Vec<PTid> = sub_tids.clone();
+    callees.extend(externs.iter().map(|e| e.tid.clone()));
+    let callother = rng.chance(1, 8);
+    let mut g = PGen::new(rng);
+    g.floats = floats;
+    g.overlap_temps = true;
+    let mut subs = Vec::new();
+    for s in 0..n_subs {
+        let mut targets: Vec<PTid> = (0..per_sub[s]).map(|b| blk_tid(s, b)).collect();
+        if g.rng.chance(1, 8) {
+            // shared block of another function / a target that does not exist
+            let os = g.rng.usize_below(n_subs);
+            targets.push(blk_tid(os, g.rng.usize_below(per_sub[os])));
+        }
+        if g.rng.chance(1, 12) {
+            targets.push(ptid("blk_00999000", "00999000"));
+        }
+        let ctx = JumpCtx { blocks: targets, callees: callees.clone(), callother, force_jump: true };
+        let mut blocks = Vec::new();
+        for b in 0..per_sub[s] {
+            let n_ops = g.rng.range_usize(0, 8);
+            let mut blk = g.gen_block(blk_addr(s, b), n_ops, &ctx);
+            if b == 0 && g.rng.bool() {
+                // prologue: push rbp; mov rbp, rsp; sub rsp, c; and rsp, -16 (random subset, in order)
+                let mut pro: Vec<PTerm<PDef>> = Vec::new();
+                g.addr_base = blk_addr(s, b) + 0x200;
+                if g.rng.bool() {
+                    let t = g.fresh_tid();
+                    pro.push(def(t, Some(v_reg("RSP", 8)), "INT_SUB", Some(v_reg("RSP", 8)), Some(v_const(8, 8, true)), None));
+                    let t = g.fresh_tid();
+                    pro.push(def(t, None, "STORE", Some(v_const(0x1b1, 8, false)), Some(v_reg("RSP", 8)), Some(v_reg("RBP", 8))));
+                }
+                if g.rng.bool() {
+                    let t = g.fresh_tid();
+                    pro.push(def(t, Some(v_reg("RBP", 8)), "COPY", Some(v_reg("RSP", 8)), None, None));
+                }
+                if g.rng.bool() {
+                    let c = *g.rng.pick(&[8u128, 16, 24, 40, 0x100]);
+                    let t = g.fresh_tid();
+                    pro.push(def(t, Some(v_reg("RSP", 8)), "INT_SUB", Some(v_reg("RSP", 8)), Some(v_const(c, 8, false)), None));
+                }
+                if g.rng.chance(2, 3) {
+                    let t = g.fresh_tid();
+                    match g.rng.below(4) {
+                        0 => pro.push(def(t, Some(v_reg("ESP", 4)), "INT_AND", Some(v_reg("ESP", 4)), Some(v_const(0xffff_fff0, 4, false)), None)),
+                        1 => pro.push(def(t, Some(v_reg("RSP", 8)), "INT_AND", Some(v_const(0xffff_ffff_ffff_fff0, 8, false)), Some(v_reg("RSP", 8)), None)),
+                        _ => pro.push(def(t, Some(v_reg("RSP", 8)), "INT_AND", Some(v_reg("RSP", 8)), Some(v_const(0xffff_ffff_ffff_fff0, 8, false)), None)),
+                    }
+                }
+                pro.append(&mut blk.term.defs);
+                blk.term.defs = pro;
+            }
+            blocks.push(blk);
+        }
+        if blocks.len() > 1 && g.rng.chance(1, 6) {
+            // the entry block need not come first in the extractor's output
+            let k = g.rng.range_usize(1, blocks.len() - 1);
+            blocks.swap(0, k);
+        }
+        let cc = if g.rng.bool() { Some("__stdcall".to_string()) } else { None };
+        subs.push(PTerm { tid: sub_tids[s].clone(), term: PSub { name: format!("fn_{s}"), blocks, calling_convention: cc } });
+    }
+    empty_project(subs, externs, vec![sub_tids[0].clone()])
 }
